@@ -411,6 +411,12 @@ func (s *Skiplist) deleteNode(n *Node, cmp CompareFn, buf *ActionBuffer, sts *St
 // and after this function call
 func (s *Skiplist) GetRangeSplitItems(nways int) []unsafe.Pointer {
 	var deleted bool
+
+	// A single range has no pivots (the loop below would never see its
+	// nways-1 == 0 pivots completed and return one pivot per split)
+	if nways <= 1 {
+		return nil
+	}
 repeat:
 	var itms []unsafe.Pointer
 	var finished bool
